@@ -306,12 +306,17 @@ CLAIMED["C08"] = dict(
          "without parity; unknown names refused); Data_K.covariant hands each (name, derivative order) its table entry, the generalised "
          "derivative one more order, the velocity odd/odd; Transform.__call__ (permutation, conjugation, sign) and TransformProduct on symbolic "
          "tensors; Tabulator.__call__ forwards the formula's declarations; the constructors of 12 formula classes assign parity(base quantity) x "
-         "(-1)^(number of k-derivatives). The statement itself -- value at -k equals the declared transformation of the value at k -- needs "
-         "eigen-decompositions at two k-points of a symmetric model and is covered by a bounded stand-in only: installed Data_K_R with 9 "
+         "(-1)^(number of k-derivatives). Formula level (per shape, all matrix values): the REAL text of Velocity, InvMass, Der3E, Omega, DerOmega "
+         "(internal / with external terms), Spin, DerSpin, Morb_H, morb on top of the real Formula / Matrix_ln / Matrix_GenDer_ln / Dcov / DerDcov / "
+         "DerWln / Eavln classes and the real Data_K.covariant / V_covariant / D_H / dEig_inv is executed on symbolic Hamiltonian-gauge matrices "
+         "(Hermitian, 3 bands, generic energies) at k and on their images at -k (time reversal: +-conj, inversion: +-, sign from the parity table, "
+         "position-like AA / BB even-with-conjugation resp. odd): the band-group traces at -k equal the declared transformation of those at k, "
+         "with a non-vacuity clause -- 12 formula variants x 2 symmetries. End to end (eigen-decompositions of a symmetric model at two "
+         "k-points) is a bounded stand-in: installed Data_K_R with 9 "
          "tabulators (energy ... second derivative of the Berry curvature, internal / external terms) and JDOS / optical conductivity / shift "
-         "current / injection current at random +-k of random time-reversal symmetric (real H(R), A(R)) and inversion-symmetric (H(-R)=H(R), "
-         "A(-R)=-A(R)) 3-band models. Spin and orbital-moment formulas (need SS / BB / CC of a symmetric model) are covered by the bookkeeping "
-         "units only.",
+         "current / injection current and 11 static calculators at random +-k of random time-reversal symmetric (real H(R), A(R)) and "
+         "inversion-symmetric (H(-R)=H(R), A(-R)=-A(R)) 3-band models. Spin and orbital-moment formulas (need SS / BB / CC of a symmetric model) are "
+         "covered by the formula-level and bookkeeping units only.",
     note=TB + "; physics of the base quantities assumed (curvature, spin, orbital moment: TR-odd, inversion-even); symmetric random models as constructed in contracts/C08.py")
 
 CLAIMED["C07"] = dict(
